@@ -28,10 +28,12 @@ theorem request_fwd_source (s : Node) (c : Nat) (short : Bool) (q : Req) (c' : N
       rcases checkClient_some hcc with ⟨_, _, rfl⟩ | ⟨_, hl, _, rfl, _, _⟩
       · cases hf
       · refine ⟨hl, ?_⟩
-        unfold openFwd at hf
-        split at hf
-        · cases hf
-        · rename_i r cid; simp at hf; exact ⟨r, cid, rfl, hf⟩
+        cases ic with
+        | none => simp [openFwd] at hf
+        | some p =>
+          obtain ⟨r, cid⟩ := p
+          simp [openFwd] at hf
+          exact ⟨r, cid, rfl, hf⟩
     rcases hb with ⟨ct, cmd, l, n, pre, aw, ack, hb, hf⟩ | ⟨rid', cid, l, n, hb, rfl⟩ | ⟨rid', l, n, pre, hb, hf⟩
     · cases q with
       | lk ct' md cmd' rep =>
@@ -231,7 +233,6 @@ theorem leaderMsg_client (s : Node) (c : Nat) (msg : LeaderMsg) (early : Bool) (
       (∃ rid res ct, msg = .callRes rid res ct ∧ m = .callRes rid res ct)) := by
   simp only [step, stepLeaderMsg] at h
   repeat' split at h
-  all_goals (try simp at h)
-  exact relay_client h
+  all_goals first | exact relay_client h | simp at h
 
 end Slock.Trans
